@@ -129,6 +129,19 @@ def run(ctx):
                 extra = [{'method': 'POST', 'path': prefix + '/api/diff', 'body': json.dumps({'base': 'a.ipynb', 'remote': 'b.ipynb'}),
                           'model': ['apiDiff', True, 'readable', 'readable'], 'args': ['a.ipynb', 'b.ipynb'], 'tag': 'diff'} for _ in range(2)]
                 job['requests'] = extra[:1] + reqs[:3] + extra[1:] + reqs[3:]
+            if mode in ('plain', 'closable-plain', 'mergetool-noout', 'difftool') and i % 2 == 1:
+                # another server of the same process was started (as a merge tool with an output file, or as a diff tool)
+                # and used before this one: its start-up parameters must not reach this server
+                wroot, wnbs = make_tree(rng, os.path.join(td, 'w%d' % i))
+                wparams = {'cwd': os.path.join(wroot, 'work'), 'base_url': '/', 'closable': False}
+                if rng.random() < 0.7:
+                    wparams.update(mergetool_args={'base': 'a.ipynb', 'local': 'b.ipynb', 'remote': 'c.ipynb'}, outputfilename='warm-out.ipynb')
+                    wreqs = [{'method': 'POST', 'path': '/api/merge', 'body': json.dumps({'base': 'a.ipynb', 'local': 'b.ipynb', 'remote': 'c.ipynb'})}]
+                else:
+                    wparams.update(difftool_args={'base': 'a.ipynb', 'remote': 'b.ipynb'})
+                    wreqs = [{'method': 'POST', 'path': '/api/diff', 'body': json.dumps({'base': 'a.ipynb', 'remote': 'b.ipynb'})}]
+                job['warmup'] = [{'params': wparams, 'requests': wreqs + [{'method': 'GET', 'path': '/'}]}]
+                ctx.count('second server in the process, started earlier')
             jobs.append(job)
             metas.append((mode, out, nbs, root))
         with concurrent.futures.ThreadPoolExecutor(max_workers=12) as ex:
